@@ -365,8 +365,10 @@ class _SwapIndependent(_ast.NodeTransformer):
         return node
 
 
-def _transform_tree(root, how):
+def _transform_tree(root, how, base_overlay=None):
+    """Whole-tree rewrite; *base_overlay* (relpath -> text) replaces files on disk first (a mutant under a twin)."""
     overlay = {}
+    base_overlay = base_overlay or {}
     for dirpath, dirs, files in os.walk(os.path.join(root, "lena")):
         dirs.sort()
         for f in sorted(files):
@@ -374,8 +376,11 @@ def _transform_tree(root, how):
                 continue
             path = os.path.join(dirpath, f)
             rel = os.path.relpath(path, root)
-            with open(path, encoding="utf-8") as fh:
-                text = fh.read()
+            if rel in base_overlay:
+                text = base_overlay[rel]
+            else:
+                with open(path, encoding="utf-8") as fh:
+                    text = fh.read()
             try:
                 with warnings.catch_warnings():
                     warnings.simplefilter("ignore")
@@ -440,9 +445,27 @@ def _key_set(ctx):
     return {f.key() for f in ctx.findings}
 
 
+COMPOSE_WITH = ("rename", "noop", "negate-if", "augassign", "extract-return", "flip-compare", "swap-independent")
+
+
 def _analyse_variant(args):
     prop, root, name, kind, overlay, expect, base_keys, base_unknown = args
     from ..cli import analyse
+    if kind.startswith("under:"):
+        how = kind.split(":", 1)[1]
+        try:
+            overlay = _transform_tree(root, how, base_overlay=overlay)
+        except SyntaxError as err:
+            return {"name": name, "kind": "mutant-under-twin", "status": "invalid", "detail": str(err)}
+        ctx = analyse(prop, root=root, overlay=overlay)
+        new = [f for f in ctx.findings if f.key() not in base_keys]
+        hit = [f for f in new if not expect or any(f.rule == e or f.rule.startswith(e) for e in expect)]
+        if hit or new:
+            return {"name": name, "kind": "mutant-under-twin", "status": "detected", "detail": (hit or new)[0].line()[:300],
+                    "rules": sorted({f.rule for f in (hit or new)})}
+        if len(ctx.unknowns) > base_unknown:
+            return {"name": name, "kind": "mutant-under-twin", "status": "unknown", "detail": "; ".join("%s %s" % u for u in ctx.unknowns[:2])[:300]}
+        return {"name": name, "kind": "mutant-under-twin", "status": "missed", "detail": ""}
     for rel, text in overlay.items():
         try:
             with warnings.catch_warnings():
@@ -496,6 +519,19 @@ def run_for_property(prop, root, base_ctx, seed=0, jobs=0):
             continue
         tasks.append((prop, root, "seeded/" + name, "seeded", ov, (), base_keys, base_unknown))
     if os.environ.get("VERIF_GENERIC_TWINS", "1") != "0":
+        # every mutant and seeded change once more under two of the whole-tree rewrites (which two: by name and VERIF_SEED):
+        # what a rule reports must not depend on how the surrounding code is spelled
+        import zlib
+        composed = []
+        per = int(os.environ.get("VERIF_COMPOSE", "2") or 2)
+        for t in list(tasks):
+            if t[3] not in ("mutant", "seeded"):
+                continue
+            h = zlib.crc32(("%s:%d" % (t[2], seed)).encode())
+            for k in range(per):
+                how = COMPOSE_WITH[(h + k * 3) % len(COMPOSE_WITH)]
+                composed.append((t[0], t[1], "%s @ %s" % (t[2], how), "under:" + how, t[4], t[5], t[6], t[7]))
+        tasks.extend(composed)
         tasks.extend(generic_twin_tasks(prop, root, base_keys, base_unknown))
     results = []
     jobs = jobs or min(16, os.cpu_count() or 1)
@@ -512,7 +548,10 @@ def run_for_property(prop, root, base_ctx, seed=0, jobs=0):
     silent = [r for r in twins if r["status"] == "silent"]
     # a deeper rewrite may leave a rule undecided (unknown idiom), it must never be reported as a violation
     deep_ok = [r for r in deep if r["status"] in ("silent", "unknown")]
-    bad = [r for r in mutants if r not in detected] + [r for r in twins if r not in silent] + [r for r in deep if r not in deep_ok]
+    under = [r for r in results if r["kind"] == "mutant-under-twin"]
+    # under a rewrite a rule must still report the change, or at least refuse to decide (exit 2); passing silently is a miss
+    under_bad = [r for r in under if r["status"] in ("missed", "invalid")]
+    bad = [r for r in mutants if r not in detected] + [r for r in twins if r not in silent] + [r for r in deep if r not in deep_ok] + under_bad
     for r in bad:
         base_ctx.unknowns.append(("selftest", "%s %s: %s %s" % (r["kind"], r["name"], r["status"], r["detail"])))
     n_total = len(variants)
@@ -526,6 +565,8 @@ def run_for_property(prop, root, base_ctx, seed=0, jobs=0):
             "twins_total": len(twins), "twins_silent": len(silent),
             "deep_twins_total": len(deep), "deep_twins_silent": len([r for r in deep if r["status"] == "silent"]),
             "deep_twins_undecided": [r["name"] for r in deep if r["status"] == "unknown"],
+            "mutants_under_twins_total": len(under), "mutants_under_twins_detected": len([r for r in under if r["status"] == "detected"]),
+            "mutants_under_twins_undecided": [r["name"] for r in under if r["status"] == "unknown"],
             "skipped_anchor_gone": skipped,
             "results": results,
         },
